@@ -442,11 +442,15 @@ def c15d(ctx, tu):
                    detail="" if ok else "the values printed in a forbidden-call report must be the arguments of the call "
                    "that was made (the reporting function's call-parameter tuple); they are built from %s"
                    % (", ".join(sorted(set(lib.tree_name(t) or str(t[:3]) for t in other))) or "nothing of the call"))
-    # the parameter printer
-    packs = [fn for fn in tu.find("trompeloeil::stream_params") if fn.has_body]
-    for fn in packs:
+    # the parameter printer: its entry point (stream, tuple) is interpreted - index-pack overloads, recursion over
+    # the pack and helpers followed - and must hand every element of the tuple, once each in order, to the element
+    # printer under its own number
+    from engine.table import Interp, Unknown
+    from rules.common import Oracle
+    for fn in [f for f in tu.find("trompeloeil::stream_params") if f.has_body]:
         ps = fn.rec["params"]
-        seq = [i for i, p in enumerate(ps) if "integer_sequence<" in p["t"]]
+        if any("integer_sequence<" in p["t"] for p in ps):
+            continue
         tup = [i for i, p in enumerate(ps) if "tuple<" in p["t"]]
         if len(tup) != 1:
             ctx.ob("C15.d.every", "trompeloeil::stream_params", None, pattern=fn.pat, unit=tu.name, inst=fn.q,
@@ -454,50 +458,43 @@ def c15d(ctx, tu):
             continue
         arity = len(_targs(ps[tup[0]]["t"][ps[tup[0]]["t"].index("tuple<"):]))
         n += 1
-        if seq:
-            idx = _targs(ps[seq[0]]["t"][ps[seq[0]]["t"].index("integer_sequence<"):])[1:]
-            mv = cfg.find_events(fn, lambda e: e["e"] == "call" and (qe(e) or "").startswith("trompeloeil::") and
-                                 any(isinstance(a, list) and a[:1] == ["call"] and str(a[2]).startswith("std::get<")
-                                     for a in (e.get("args") or [])))
-            why = None
-            if len(idx) != arity:
-                why = "it is instantiated with %d indices for %d arguments" % (len(idx), arity)
-            elif len(mv) != arity:
-                why = "%d of %d arguments are printed" % (len(mv), arity)
-            else:
-                seen = set()
-                for b, i, e in mv:
-                    if fn.exit in cfg.reach(fn, fn.entry, avoid_blocks={b}):
-                        why = "an argument is printed only on some paths"
-                    g = [a for a in e["args"] if isinstance(a, list) and a[:1] == ["call"] and str(a[2]).startswith("std::get<")][0]
-                    gi = __import__("re").match(r"std::get<(\d+)", g[2]).group(1)
-                    seen.add(gi)
-                    lab = [a for a in e["args"] if isinstance(a, list) and a[:1] == ["int"]]
-                    if lab and str(lab[0][1]) != gi:
-                        why = "argument %s is printed under the number of argument %s" % (gi, lab[0][1])
-                if why is None and len(seen) != arity:
-                    why = "only the arguments %s are printed" % sorted(seen)
-            ctx.ob("C15.d.every", "trompeloeil::stream_params<I...>", why is None, pattern=fn.pat, unit=tu.name, inst=fn.q,
-                   detail="" if why is None else "a report lists every actual argument of the call: " + why)
+        seen = []
+
+        def elem(t, it, seen=seen):
+            args = t[3]
+            g = __import__("re").findall(r"std::get<(\d+)", str(args))
+            lab = None
+            for a in args:
+                try:
+                    v = it.ev(a)
+                except Unknown:
+                    continue
+                if isinstance(v, int) and not isinstance(v, bool):
+                    lab = v
+                    break
+            seen.append((g[0] if len(set(g)) == 1 else None, lab))
+            return ("opaque", "os")
+        try:
+            o = Oracle(calls={"trompeloeil::missed_value": elem}, any_call=True, any_param=True,
+                       any_member=True).descend_into(tu, depth=24)
+            Interp(fn, o).run(max_steps=6000)
+        except Unknown as u:
+            ctx.ob("C15.d.every", "trompeloeil::stream_params", None, pattern=fn.pat, unit=tu.name, inst=fn.q,
+                   detail="cannot interpret: %s" % u)
+            continue
+        order = []
+        for g, lab in seen:
+            if g is not None and (not order or order[-1][0] != g):
+                order.append((g, lab))
+        why = None
+        if [g for g, _ in order] != [str(i) for i in range(arity)]:
+            why = "of %d arguments the elements printed are %s" % (arity, [g for g, _ in order])
         else:
-            # the entry overload hands the whole index range on
-            sub = [(b, e) for b, _i, e in cfg.find_events(fn, lambda e: e["e"] == "call" and qe(e) == "trompeloeil::stream_params")]
-            why = None
-            if len(sub) != 1 or fn.exit in cfg.reach(fn, fn.entry, avoid_blocks={sub[0][0]}):
-                ctx.ob("C15.d.every", "trompeloeil::stream_params", None, pattern=fn.pat, unit=tu.name, inst=fn.q,
-                       detail="parameter printer: unrecognised form (no index-pack overload is called)")
-                continue
-            c = tu.fns.get(sub[0][1].get("callee"))
-            cseq = [p for p in (c.rec["params"] if c is not None else []) if "integer_sequence<" in p["t"]]
-            if not cseq:
-                why = "the index pack handed on cannot be determined"
-                ok = None
-            else:
-                k = len(_targs(cseq[0]["t"][cseq[0]["t"].index("integer_sequence<"):])) - 1
-                ok = k == arity
-                why = "it hands on %d indices for %d arguments" % (k, arity)
-            ctx.ob("C15.d.every", "trompeloeil::stream_params", ok, pattern=fn.pat, unit=tu.name, inst=fn.q,
-                   detail="" if ok else "a report lists every actual argument of the call: " + why)
+            wrong = [(g, lab) for g, lab in order if lab is not None and str(lab) != g]
+            if wrong:
+                why = "argument %s is printed under the number of argument %s" % wrong[0]
+        ctx.ob("C15.d.every", "trompeloeil::stream_params", why is None, pattern=fn.pat, unit=tu.name, inst=fn.q,
+               detail="" if why is None else "a report lists every actual argument of the call: " + why)
     return n
 
 
